@@ -65,11 +65,11 @@ NO_MISSING = {k: v for k, v in gen.DEFAULT_WEIGHTS.items() if k != "delete_disk"
 
 
 def safe_commit(h, name, wt, rng, **kw):
-    from breezy import errors
+    from breezy.commit import PointlessCommit
 
     try:
         return gen.commit(h, name, wt, rng, **kw)
-    except errors.PointlessCommit:
+    except PointlessCommit:
         return None
 
 
